@@ -345,6 +345,8 @@ class Interp(ExprMixin, CallMixin, AnyMixin):
                 items = list(range(lo, hi))
             else:
                 if spec is None:
+                    if self._append_n_loop(node, env, lo, hi):
+                        return
                     raise Unsupported(f"loop without invariant at {env.func.key}:{node.lineno}")
                 return self.exec_spec_loop(node, env, spec, lo=lo, hi=hi)
         elif isinstance(it, SeqV):
@@ -365,6 +367,28 @@ class Interp(ExprMixin, CallMixin, AnyMixin):
                 continue
         if not broke:
             self.exec_block(node.orelse, env)
+
+    def _append_n_loop(self, node, env, lo, hi):
+        """`for _ in range(n): <deque>.append(<elt>)` with a loop-independent, side-effect-free elt and no else/break: exactly
+        deque.extend(<elt> for _ in range(n)) - summarised in closed form wherever the loop lives (no invariant needed)."""
+        if node.orelse or len(node.body) != 1 or not isinstance(node.body[0], ast.Expr) or not (isinstance(lo, int) and lo == 0):
+            return False
+        call = node.body[0].value
+        if not (isinstance(call, ast.Call) and isinstance(call.func, ast.Attribute) and call.func.attr == "append" and len(call.args) == 1
+                and not call.keywords and isinstance(call.args[0], (ast.Name, ast.Constant))):
+            return False
+        tgt = {x.id for x in ast.walk(node.target) if isinstance(x, ast.Name)}
+        if isinstance(call.args[0], ast.Name) and call.args[0].id in tgt:
+            return False
+        recv = self.eval(call.func.value, env)
+        if not isinstance(recv, DequeV):
+            return False
+        gen = ast.GeneratorExp(elt=call.args[0], generators=[ast.comprehension(target=node.target, iter=node.iter, ifs=[], is_async=0)])
+        ast.copy_location(gen, node)
+        ast.fix_missing_locations(gen)
+        from .values import GenExp
+        self.call_method(recv, "extend", [GenExp(gen, env)], {}, node)
+        return True
 
     def s_While(self, node, env):
         spec = self.find_loop_spec(env, node)
